@@ -233,6 +233,10 @@ func (g *c02Gen) call(id string) c02Msg {
 		return mk("call-ok", 0, "ping", r.Choose("-", "{}", "null"))
 	case x < 12:
 		return mk("call-ok", 0, r.Choose("tools/list", "prompts/list", "resources/list", "resources/templates/list"), r.Choose("-", "{}", `{"cursor":""}`))
+	case x == 14:
+		// reading a resource that does not exist, under URIs a JSON string may legally hold (control bytes, quotes,
+		// non-ASCII): an error, exactly once, and the session goes on
+		return mk("no-such-resource", c02AnyError, "resources/read", `{"uri":`+r.Choose(`"file:///nope"`, `"file:///a\u007fb\u0001"`, `"file:///caf\u00e9"`, `"file:///q\"uote"`, `"file:///tab\there"`, `"file:///\ud83d\ude00"`, `"file:///back\\slash"`, `""`)+`}`)
 	case x < 15:
 		return mk("unknown-method", -32601, r.Choose("foo/bar", "tools/call2", "", "TOOLS/LIST", "notifications/nope"), r.Choose("-", "{}", "[1,2]"))
 	case x < 18:
@@ -414,6 +418,9 @@ func c02Server() *mcp.Server {
 	})
 	s.AddTool(&mcp.Tool{Name: "nan", InputSchema: json.RawMessage(`{"type":"object"}`)}, func(ctx context.Context, req *mcp.CallToolRequest) (*mcp.CallToolResult, error) {
 		return &mcp.CallToolResult{Content: []mcp.Content{&mcp.TextContent{Text: "x"}}, StructuredContent: map[string]any{"x": math.NaN()}}, nil
+	})
+	s.AddResource(&mcp.Resource{URI: "file:///r", Name: "r"}, func(context.Context, *mcp.ReadResourceRequest) (*mcp.ReadResourceResult, error) {
+		return &mcp.ReadResourceResult{Contents: []*mcp.ResourceContents{{URI: "file:///r", Text: "x"}}}, nil
 	})
 	s.AddPrompt(&mcp.Prompt{Name: "p"}, func(context.Context, *mcp.GetPromptRequest) (*mcp.GetPromptResult, error) {
 		return &mcp.GetPromptResult{}, nil
